@@ -191,17 +191,20 @@ def check(ev, ctx):
             valid_date = False
         if not valid_date or h > 24 or mi > 59 or s > 60 or ns > 10**9:
             mine = "Reject"
-        elif h == 24 or ns == 10**9:
-            mine = "DontCare"
         elif s == 60:
+            # second = 60 "at any other time of day" or on another date is an error, whatever the hour / nanosecond class
             nxt = (days_from_1900(y, m, d) + 1) * 86400
             entries = [ts for ts, _ in ctx["leap"]]
             if (y, m, d) == (1971, 12, 31):
                 mine = "DontCare"
-            elif nxt in entries[1:] and h == 23 and mi == 59:
-                mine = "Accept"
-            else:
+            elif nxt not in entries[1:] or not (h == 23 and mi == 59):
                 mine = "Reject"
+            elif ns == 10**9:
+                mine = "DontCare"
+            else:
+                mine = "Accept"
+        elif h == 24 or ns == 10**9:
+            mine = "DontCare"
         else:
             mine = "Accept"
         ok = mine == ev["want"]
